@@ -349,6 +349,8 @@ class Interp:
             key = self.eval(target.slice, env, f)
             if isinstance(base, dict) and isinstance(key, (str, int)):
                 base[key] = v
+            elif isinstance(base, list) and isinstance(key, int) and not isinstance(key, bool) and -len(base) <= key < len(base):
+                base[key] = v
             elif isinstance(base, dict):
                 raise Unsupported("dict store with non-constant key %r" % (key,))
             else:
@@ -630,7 +632,15 @@ class Interp:
 
     def eval_call(self, c: ast.Call, env, f):
         fn = c.func
-        args = [self.eval(a, env, f) for a in c.args if not isinstance(a, ast.Starred)]
+        args = []
+        for a in c.args:
+            if isinstance(a, ast.Starred):
+                sv = self.eval(a.value, env, f)
+                if isinstance(sv, (list, tuple)):
+                    args.extend(sv)      # f(*known_sequence)
+                # an unknown starred argument is dropped (as before): hooks see the positional prefix only
+            else:
+                args.append(self.eval(a, env, f))
         kwargs = {}
         for k in c.keywords:
             if k.arg is not None:
@@ -716,6 +726,8 @@ class Interp:
                     return tuple(v) if n == "tuple" else list(v)
                 if isinstance(v, dict):
                     return tuple(v) if n == "tuple" else list(v)
+                if isinstance(v, Obj) and isinstance(v.attrs.get("__iter__"), (list, tuple)):
+                    return tuple(v.attrs["__iter__"]) if n == "tuple" else list(v.attrs["__iter__"])
                 return TOP
             if n == "dict":
                 d = {}
